@@ -120,6 +120,15 @@ func (st *SplitTracker) AvailableSplits() []SourceSplitterShard {
 	return available
 }
 
+// IsKnown tells whether the split is tracked.
+func (st *SplitTracker) IsKnown(splitID string) bool {
+	st.mu.Lock()
+	defer st.mu.Unlock()
+
+	_, known := st.knownSplits.Get(splitID)
+	return known
+}
+
 // KnownSplits are all tracked splits, assigned or not, ordered by split ID.
 func (st *SplitTracker) KnownSplits() []SourceSplitterShard {
 	st.mu.Lock()
